@@ -605,6 +605,12 @@ def p_reshaper(d, st, req, v, cfg):
         for rc, inv in x['inventories'].items():
             if rc not in st.classes:
                 errors.add(400)
+            # the reshaper documents refer to the inventory format of PUT
+            # inventories without saying whether its "reserved may not exceed
+            # total" rule applies: accepted and 400 are both allowed there
+            definite, possible = _capacity_errors(v, inv)
+            if definite or possible:
+                also.add(400)
             new_inv[(u, rc)] = full_inventory(inv)
             interim[(u, rc)] = full_inventory(inv)
     entries = _entries(req, v)
